@@ -158,6 +158,15 @@ def check(case, stats=None):
             gotd = {lab: int(c) for lab, c in zip(got.alphabet, np.asarray(got.counts).tolist()) if int(c)}
             if gotd != dict(want):
                 return [Failure("C11:count_kmers", {"streamed": gotd, "expected": dict(want)})]
+            # counted per sequence (axis=-1): one row of counts for every sequence of every chunk, in order
+            enc = [bnp.as_encoded_array(c.sequence.tolist(), bnp.DNAEncoding) for c in chunks]
+            per_row = count_kmers(bnp.streams.BnpStream(iter(enc)), k, axis=-1)
+            mat = np.asarray(per_row.counts)
+            got_rows = [{lab: int(c) for lab, c in zip(per_row.alphabet, row) if int(c)} for row in mat.tolist()] if mat.ndim == 2 else None
+            want_rows = [dict(Counter(s[i:i + k] for i in range(len(s) - k + 1))) for s in seqs]
+            if got_rows != want_rows:
+                return [Failure("C11:count_kmers-per-sequence", {"k": k, "streamed_shape": list(mat.shape), "expected_rows": len(want_rows),
+                                                                "streamed": (got_rows or [])[:4], "expected": want_rows[:4]})]
         elif comp == "groupby":
             got = [(name, list(zip(g.start.tolist(), g.stop.tolist()))) for name, g in bnp.groupby(stream(), "chromosome")]
             want = [(k_, [(a, b) for _, a, b in grp]) for k_, grp in itertools.groupby(rows, key=lambda r: r[0])]
